@@ -3,9 +3,10 @@
 # confirms the seeded change (demo passes clean / fails mutated, baseline tests unchanged), runs the checks of the
 # given properties against a scratch copy with the change applied, stores everything under /verif/seeded/<name>/
 SRC="$1"; NAME="$2"; shift 2
+ROOT="${VERIF_ROOT:-/verif}"          # (a snapshot copy of /verif may be used so that edits do not disturb a long batch)
 D=$(mktemp -d /tmp/seed.XXXXXX)
 git -C /repo archive HEAD | tar -x -C "$D"
-OUT=/verif/seeded/$NAME; mkdir -p "$OUT"
+OUT=${SEEDED_OUT:-/verif/seeded}/$NAME; mkdir -p "$OUT"
 cp "$SRC/patch.diff" "$SRC/demo.py" "$OUT/" 2>/dev/null; cp "$SRC/meta.json" "$OUT/agent_meta.json" 2>/dev/null
 mkdir -p "$D/out/x"; cp "$SRC/demo.py" "$D/out/x/demo.py"
 (cd "$D" && /venv/bin/python out/x/demo.py >/dev/null 2>&1); CLEAN=$?
@@ -15,7 +16,7 @@ TESTS=$(cd "$D" && /venv/bin/python -m pytest -q -p no:cacheprovider dynetx/test
 echo "demo clean exit=$CLEAN mutated exit=$MUT ; tests: $TESTS"
 RES=""
 for P in "$@"; do
-  LINE=$(DYNETX_REPO="$D" VERIF_EVIDENCE_DIR="$D/evidence" /verif/verif check $P --tier quick 2>&1 | grep -v "^UNDECIDED\|^KNOWN-FINDING" | tail -6)
+  LINE=$(DYNETX_REPO="$D" VERIF_EVIDENCE_DIR="$D/evidence" "$ROOT/verif" check $P --tier quick 2>&1 | grep -v "^UNDECIDED\|^KNOWN-FINDING" | tail -6)
   echo "$LINE" | cut -c1-220
   V=$(echo "$LINE" | grep -c "^VIOLATION")
   RES="$RES $P:$V"
